@@ -133,7 +133,8 @@ Print Assumptions C01_date_reencode.
 (* `leaf_dom`: texts of valid characters; fixed decimals printable below 2^51 units of their last
    decimal; durations below 2^62 ns; dates 1969-2068; coordinates, altitude coordinates, relative
    positions, gear ratios and intermediates built from those; tag lists of valid characters; tyres
-   whose speed rating has no white space.  (Sync points are outside: the correspondence covers them.)  For every such leaf, decoding what was written
+   whose speed rating has no white space; video sync points whose offset in seconds prints below
+   2^51 hundredths; plus and minus zero in every float position.  For every such leaf, decoding what was written
    succeeds and writing the decoded value again produces the same text. *)
 Theorem C01_leaf_reencode :
   forall l, leaf_dom l -> exists l', quant_leaf l = Ok l' /\ leaf_text l' = leaf_text l.
